@@ -1312,10 +1312,11 @@ class ParserStream(Stream):
 
 CHECK = Check(
     prop="C11",
-    gen=["RangeTbl", "EtagTbl", "CondConsts", "PyFns_Internal", "PyFns_Range", "Http", "PyFns_Http", "PyFns_HttpDict", "PyFns_Etag", "PyFns_Response"],
-    modules=["WzVerif.Props.C11", "WzVerif.Props.C11T", "WzVerif.Props.C11T2"],
+    gen=["RangeTbl", "EtagTbl", "CondConsts", "PyFns_Internal", "PyFns_Range", "Http", "PyFns_Http", "PyFns_HttpDict", "PyFns_Etag", "PyFns_Response", "CacheSetTable", "Containers", "Response", "ResponseProps", "UrlTables", "Views"],
+    modules=["WzVerif.Props.C11", "WzVerif.Props.C11T", "WzVerif.Props.C11T2", "WzVerif.Props.C11T3"],
     streams=[ConditionalStream(), RangesStream(), SendFileStream(), ParserStream(), PreludeKernels()],
     assumptions=[
+        "C11T3 (Response.make_conditional as regenerated from the source, accept_ranges: bool): what the method asks of the environ / headers (REQUEST_METHOD, Date present, is_resource_modified(...), truthiness of parse_etags(If-Match), automatically_set_content_length, Content-Length present, calculate_content_length()) are parameters, instantiated from Model/Conditional.lean in the theorems; header / status writes are recorded in out_* attributes (Content-Length written by _process_range_request counts as present)",
         "round 3 (Props/C11T2): is_resource_modified (sansio/http.py), parse_etags (http.py) and the ETags class (__init__, is_weak, is_strong, contains, contains_weak, __bool__; datastructures/etag.py) are regenerated from the source by tools/py2lean.py (Gen/PyFns_Etag.lean) on every run; the translated call tree - is_resource_modified calling the translated parse_if_range_header, unquote_etag, parse_etags and ETags methods - is proved equal to the hand model isResourceModified for all inputs without line feeds in the three entity-tag headers (parse_etags does not terminate on a text ending in LF: parse_etags_lf_spins in Props/C06T2, replayed on CPython; such a value cannot arrive through WSGI). Opaque / hand-modelled on that route: parse_date, the regex _etag_re (C06's model etagMatch), datetime comparison (instants as (seconds, microseconds)), frozenset as a duplicate-free list",
         "parse_date (email.utils): for IMF-fixdate text (what http_date produces) the driver parses the header itself with the C06 date model (Model/Date.lean, date_roundtrip), nothing is opaque; for other notations (offsets, asctime, garbage) the harness supplies the parsed instant as integer epoch seconds (opaque parameter); datetime comparison = comparison of the instants after flooring last_modified to whole seconds",
         "a FileWrapper over a file object yields blocks of at most buffer_size bytes and never an empty block; seek/tell of the underlying file behave like io.BytesIO (validated by stream ranges)",
